@@ -139,6 +139,20 @@ def replay_file(pid, path):
             print('VIOLATION property=%s replay=%s' % (pid, path))
             return 1
         return 0
+    if d.get('route') == 'dwarf':
+        sp = os.path.join(common.BUILD, 'scripts')
+        os.makedirs(sp, exist_ok=True)
+        sf = os.path.join(sp, 'dwarf-replay-%d.json' % os.getpid())
+        json.dump(d['script'], open(sf, 'w'))
+        r = run_vreplay(['dwarf', sf])
+        os.remove(sf)
+        summ = (r.get('checks') or {}).get('summary') or {}
+        print(json.dumps({'status': r.get('status'), 'error': r.get('error'), 'summary': summ, 'subprogram_mismatches': (r.get('checks') or {}).get('subprogram_mismatches'),
+                          'row_mismatches': (r.get('checks') or {}).get('row_mismatches')}, indent=1)[:4000])
+        if r.get('status') == 'panic' or summ.get('subprogram_mismatches', 0) or summ.get('row_mismatches', 0) or summ.get('rows_lost_non_nop', 0):
+            print('VIOLATION property=%s replay=%s' % (pid, path))
+            return 1
+        return 0
     if d.get('route') == 'roundtrip-script':
         from . import natives
         return natives.replay_script(pid, d, path)
